@@ -18,6 +18,7 @@ import ast
 import itertools
 
 from ..astutil import AnalysisError, dotted, src, walk_local, calls_in
+from .. import pattern as P
 from ..absint import Interp, BV, Bit, Opaque, TypeTok, Reject, Closure, Env
 from ..rules import shape
 from . import c18
@@ -273,11 +274,11 @@ def rule_record(run):
     Interp(rec, p).call_function("_make_serializable", der)
     run.ob(der._own.get("_cohdlstd_bitcount") == 5, "_make_serializable", file=rec.rel, line=rec.func("_make_serializable").node.lineno, detail="idempotent", expected="second call keeps the layout", found=str(der._own.get("_cohdlstd_bitcount")))
     fb = rec.func("Record._from_bits_")
-    t = src(fb.node)
+    t = P.T(fb.node)
     ok = "bits[cls._cohdlstd_slice_map[name]]" in t and "from_bits[elem_type](" in t and "assert bits.width == cls._count_bits_()" in t and "for name, elem_type in cls._cohdlstd_record_annotations.items()" in t
     run.ob(ok, "Record._from_bits_", file=rec.rel, line=fb.node.lineno, detail="reader", expected="every field read from its slice of the map with its own type; width checked", found="ok" if ok else "changed")
     rl = rec.func("_get_reverse_elem_list")
-    ok = "[::-1]" in src(rl.node) and "self._cohdlstd_record_annotations.keys()" in src(rl.node)
+    ok = "[::-1]" in P.T(rl.node) and "self._cohdlstd_record_annotations.keys()" in P.T(rl.node)
     run.ob(ok, "_get_reverse_elem_list", file=rec.rel, line=rl.node.lineno, detail="reverse-for-concat", expected="declaration order reversed (concat puts its first argument on top)", found="ok" if ok else "changed")
     run.end()
 
@@ -308,7 +309,7 @@ def rule_std_array(run):
         ok = isinstance(res, list) and [list(e.bits) for e in res] == exp
         run.ob(ok, "std.Array._from_bits_", file=ut.rel, line=ut.func("Array._from_bits_").node.lineno, detail=f"w={w},n={n}", expected="element nr = bits[w*(nr+1)-1 : w*nr]", found=repr(res)[:100], sample=False)
     cb = ut.func("Array._count_bits_")
-    ok = src(cb.node.body[-1]) == "return cls._count_ * count_bits(cls._elemtype_)"
+    ok = P.T(cb.node.body[-1]) == "return cls._count_ * count_bits(cls._elemtype_)"
     run.ob(ok, "std.Array._count_bits_", file=ut.rel, line=cb.node.lineno, detail="count", expected="cls._count_ * count_bits(cls._elemtype_)", found=src(cb.node.body[-1]))
     run.end()
 
@@ -351,27 +352,27 @@ def rule_adapters(run):
         f = en.func(q)
         run.ob(src(f.node.body[-1]) == needle, q, file=en.rel, line=f.node.lineno, detail="delegates", expected=needle, found=src(f.node.body[-1]))
     f = en.func("Enum._from_bits_")
-    ok = "from_bits[cls._underlying_](bits, qualifier)" in src(f.node)
+    ok = "from_bits[cls._underlying_](bits, qualifier)" in P.T(f.node)
     run.ob(ok, "Enum._from_bits_", file=en.rel, line=f.node.lineno, detail="delegates", expected="from_bits[cls._underlying_](bits, qualifier)", found="ok" if ok else "changed")
     fx = idx.mod(FX)
     for cls, view in (("SFixed", "signed"), ("UFixed", "unsigned")):
         f = fx.func(f"{cls}._count_bits_")
-        run.ob(src(f.node.body[-1]) == "return cls._width", f"{cls}._count_bits_", file=fx.rel, line=f.node.lineno, detail="width", expected="return cls._width", found=src(f.node.body[-1]))
+        run.ob(P.T(f.node.body[-1]) == "return cls._width", f"{cls}._count_bits_", file=fx.rel, line=f.node.lineno, detail="width", expected="return cls._width", found=src(f.node.body[-1]))
         f = fx.func(f"{cls}._from_bits_")
-        ok = src(f.node.body[-1]) == f"return cls(raw=bits.{view}, _qualifier_=qualifier)"
+        ok = P.T(f.node.body[-1]) == f"return cls(raw=bits.{view}, _qualifier_=qualifier)"
         run.ob(ok, f"{cls}._from_bits_", file=fx.rel, line=f.node.lineno, detail="raw-view", expected=f"cls(raw=bits.{view}, ...)", found=src(f.node.body[-1]))
         f = fx.func(f"{cls}._to_bits_")
-        ok = src(f.node.body[-1]) == "return Value(self._val.bitvector)"
+        ok = P.T(f.node.body[-1]) == "return Value(self._val.bitvector)"
         run.ob(ok, f"{cls}._to_bits_", file=fx.rel, line=f.node.lineno, detail="raw-bits", expected="Value(self._val.bitvector)", found=src(f.node.body[-1]))
     bf = idx.mod(BF)
     f = bf.func("BitField._count_bits_")
-    run.ob(src(f.node.body[-1]) == "return cls._width_", "BitField._count_bits_", file=bf.rel, line=f.node.lineno, detail="width", expected="return cls._width_", found=src(f.node.body[-1]))
+    run.ob(P.T(f.node.body[-1]) == "return cls._width_", "BitField._count_bits_", file=bf.rel, line=f.node.lineno, detail="width", expected="return cls._width_", found=src(f.node.body[-1]))
     ut = idx.mod(UT)
     f = ut.func("Serialized.value")
-    ok = src(f.node.body[-1]) == "return from_bits[self._elemtype_](self._raw, qualifier)"
+    ok = P.T(f.node.body[-1]) == "return from_bits[self._elemtype_](self._raw, qualifier)"
     run.ob(ok, "Serialized.value", file=ut.rel, line=f.node.lineno, detail="reader", expected="from_bits[self._elemtype_](self._raw, qualifier)", found=src(f.node.body[-1]))
     f = ut.func("Serialized.__init__")
-    t = src(f.node)
+    t = P.T(f.node)
     ok = "bit_count = count_bits(elem_type)" in t and "assert bit_count == raw.width" in t and "self._raw = to_bits(raw)" in t
     run.ob(ok, "Serialized.__init__", file=ut.rel, line=f.node.lineno, detail="writer", expected="raw width checked against count_bits; values stored as to_bits(raw)", found="ok" if ok else "changed")
     run.end()
@@ -381,12 +382,12 @@ def rule_template(run):
     run.begin("C17.template", "templated (and inherited) records collect their annotations base class first, so inherited fields keep the least significant bits", floor=2)
     tp = run.idx.mod(TP)
     f = tp.func("class_getitem_specialize")
-    loops = [l for l in walk_local(f.node) if isinstance(l, ast.For) and "__mro__" in src(l.iter)]
-    ok = len(loops) == 1 and src(loops[0].iter) == "reversed(cls.__mro__)"
+    loops = [l for l in walk_local(f.node) if isinstance(l, ast.For) and "__mro__" in P.T(l.iter)]
+    ok = len(loops) == 1 and P.T(loops[0].iter) == "reversed(cls.__mro__)"
     run.ob(ok, "class_getitem_specialize", file=tp.rel, line=(loops[0].lineno if loops else f.node.lineno), detail="mro-order", expected="for base in reversed(cls.__mro__)  (most basic class first)", found=src(loops[0].iter) if loops else "missing")
     rec = run.idx.mod(REC)
     isc = rec.func("Record.__init_subclass__")
-    ok = "annotations = {**cls._cohdlstd_record_annotations, **annotations}" in src(isc.node)
+    ok = "annotations = {**cls._cohdlstd_record_annotations, **annotations}" in P.T(isc.node)
     run.ob(ok, "Record.__init_subclass__", file=rec.rel, line=isc.node.lineno, detail="inherited-first", expected="{**inherited, **own}", found="ok" if ok else "changed")
     run.end()
 
